@@ -30,6 +30,11 @@ claims = {
          "plus purity (globals, external calls, hasher protocol, result copied) and the closed set of callers. Axioms: SHA-256 bytes arbitrary, base64 writes alphabet symbols. "
          "Decides well-formedness, export preservation and purity for all inputs; does not decide collision freedom or keyword clashes.",
          "abstract interpretation (byte-set domain, exhaustive case split) of go/ssa plus global/effect enumeration", "4 C16"),
+ "C03": ("Decides the determinism-effect clauses over the call-graph region that computes compiler/assembler/linker input (306 functions) plus the top-level preparation (48): "
+         "no process-global or environmental randomness/time (clock values must provably end only in log.Print*), every unordered iteration proved harmless (collected-then-sorted, slices.Sorted) "
+         "or in a reviewed table keyed by function+ranged expression+body effects, no goroutines/select (with a positive control), and a single seeded math/rand generator created in transformCompile. "
+         "One known finding (F6: reflection fix-point visits ssaPkg.Members in map order). Decides these necessary conditions, not equality of any two binaries nor determinism of dependencies and toolchain.",
+         "effect analysis over a conservative module call graph on go/ssa (reachability, loop-body effect fingerprints, purity and sort-dominance provers)", "4 C03"),
 }
 
 checks = []
